@@ -36,6 +36,7 @@ def required(tier):
         "lr.trees_judged": 2000,
         "lr.rejections_agree": 1000,
         "with_continuation": 2000,
+        "grammars.with_priorities": 100,
     }
 
 
@@ -57,6 +58,12 @@ def run(ctx):
 
 
 def one_grammar(ctx, gmon, g, alphabet, maxlen):
+    if not glrwork.has_overlap(g) and ctx.rng.random() < 0.4:
+        # terminal priorities do not change the language of a non-overlapping vocabulary
+        # (at most one terminal matches at a position) but drive the scanner's early exits
+        td = {t: cfg.TDef("str", t, prior=ctx.rng.choice([5, 10, 10, 15, 20])) for t in g.terms}
+        g = cfg.G(g.prods, g.start, td)
+        ctx.count("grammars.with_priorities")
     text = g.text()
     if len(alphabet) >= 3 and maxlen > 4:
         maxlen = 4
